@@ -35,26 +35,49 @@ func four4[P any](fresh func() P, cp func(P) P) [smudgeParties]P {
 	return [smudgeParties]P{a, b, cp(b), fresh()}
 }
 
-func judgeSmudge(c *engine.Chooser, sig string, pool []*big.Int, requested float64, sup *big.Int) {
+// pools keeps the error coefficients per party, i.e. per kind of protocol object (constructed, copy, copy of a
+// copy, second constructed): each kind is judged on its own >= 512 coefficients, so that one kind with the
+// right noise cannot cover for another.
+type pools [smudgeParties][]*big.Int
+
+func (p *pools) add(i int, e []*big.Int) { p[i] = append(p[i], e...) }
+func (p *pools) full() bool {
+	for _, x := range p {
+		if len(x) < smudgeCoeffs {
+			return false
+		}
+	}
+	return true
+}
+
+func judgeSmudge(c *engine.Chooser, sig string, ps pools, requested float64, sup *big.Int) {
+	kinds := [smudgeParties]string{"constructed", "shallow-copy", "copy-of-copy", "second-constructed"}
+	for i, pool := range ps {
+		judgeOne(c, sig, kinds[i], pool, requested, sup)
+	}
+}
+
+func judgeOne(c *engine.Chooser, sig, kind string, pool []*big.Int, requested float64, sup *big.Int) {
 	c.Count(len(pool) / 16)
+	c.Cover("smudge-object", kind)
 	if len(pool) < smudgeCoeffs {
 		panic("harness: smudge pool too small")
 	}
 	if ref.InfNorm(pool).Sign() == 0 {
-		c.Fail(sig+"/no-smudging-noise", "all %d error coefficients are zero", len(pool))
+		c.Fail(sig+"/no-smudging-noise", "%s object: all %d error coefficients are zero", kind, len(pool))
 		return
 	}
 	if n := ref.InfNorm(pool); n.Cmp(sup) > 0 {
-		c.Fail(sig+"/noise-above-truncation-bound", "max |e| = %v > %v", n, sup)
+		c.Fail(sig+"/noise-above-truncation-bound", "%s object: max |e| = %v > %v", kind, n, sup)
 		return
 	}
 	s := mp.PooledSigma(pool)
 	c.Note("pooled sigma %.2f over %d coefficients, requested %.2f, truncation %v", s, len(pool), requested, sup)
 	if s < requested/2 {
-		c.Fail(sig+"/smudging-noise-below-requested", "pooled sigma %.2f over %d coefficients < 1/2 * requested sigma %.2f", s, len(pool), requested)
+		c.Fail(sig+"/smudging-noise-below-requested", "%s object: pooled sigma %.2f over %d coefficients < 1/2 * requested sigma %.2f", kind, s, len(pool), requested)
 		return
 	}
-	c.Outcome(sig, fmt.Sprintf("%.3g", s))
+	c.Outcome(sig, kind, fmt.Sprintf("%.3g", s))
 }
 
 func smudgeScenarios(tier string) []engine.Scenario {
@@ -98,15 +121,15 @@ func smudgeKS(c *engine.Chooser, nm string, sigma float64, ntt bool) {
 		}
 		return p
 	}, func(p multiparty.KeySwitchProtocol) multiparty.KeySwitchProtocol { return p.ShallowCopy() })
-	var pool []*big.Int
-	for round := 0; len(pool) < smudgeCoeffs; round++ {
+	var pool pools
+	for round := 0; !pool.full(); round++ {
 		lvl := round % (params.MaxLevel() + 1)
 		ct, _ := encryptUnder(params, In.Ideal, lvl, nm, "pt", round)
 		for i := 0; i < smudgeParties; i++ {
 			p := ks[i]
 			sh := p.AllocateShare(lvl)
 			p.GenShare(In.SK[i], Out.SK[i], ct, &sh)
-			pool = append(pool, mp.LinearResidual(params, sh.Value, ct.Value[1], ct.IsNTT, mp.DiffKeys(params, Out.SK[i], In.SK[i]))...)
+			pool.add(i, mp.LinearResidual(params, sh.Value, ct.Value[1], ct.IsNTT, mp.DiffKeys(params, Out.SK[i], In.SK[i])))
 		}
 	}
 	judgeSmudge(c, "C16/smudge/ks", pool, flood.Sigma, sup)
@@ -127,8 +150,8 @@ func smudgePCKS(c *engine.Chooser, nm string, sigma float64, ntt bool) {
 		}
 		return p
 	}, func(p multiparty.PublicKeySwitchProtocol) multiparty.PublicKeySwitchProtocol { return p.ShallowCopy() })
-	var pool []*big.Int
-	for round := 0; len(pool) < smudgeCoeffs; round++ {
+	var pool pools
+	for round := 0; !pool.full(); round++ {
 		lvl := round % (params.MaxLevel() + 1)
 		ct, _ := encryptUnder(params, In.Ideal, lvl, nm, "pt", round)
 		for i := 0; i < smudgeParties; i++ {
@@ -139,7 +162,7 @@ func smudgePCKS(c *engine.Chooser, nm string, sigma float64, ntt bool) {
 			h.IsNTT = ct.IsNTT
 			ph := mp.Phase(params, h, skOut)
 			c1s := mp.LinearResidual(params, params.RingQ().AtLevel(lvl).NewPoly(), ct.Value[1], ct.IsNTT, In.SK[i])
-			pool = append(pool, uni.SubCentered(ph, c1s, uni.QAtLevel(params, lvl))...)
+			pool.add(i, uni.SubCentered(ph, c1s, uni.QAtLevel(params, lvl)))
 		}
 	}
 	judgeSmudge(c, "C16/smudge/pcks", pool, flood.Sigma, sup)
@@ -155,11 +178,11 @@ func addMod(e, add []*big.Int, Q *big.Int) []*big.Int {
 
 func smudgeBGV(c *engine.Chooser, nm string, sigma float64, _ bool) {
 	s2e := nm[len("smudge/"):len("smudge/bgv-s2e")] == "bgv-s2e"
-	var pool []*big.Int
+	var pool pools
 	var w *bgvWorld
 	e2sAll := map[uint64][smudgeParties]mpbgv.EncToShareProtocol{}
 	s2eAll := map[uint64][smudgeParties]mpbgv.ShareToEncProtocol{}
-	for round := 0; len(pool) < smudgeCoeffs; round++ {
+	for round := 0; !pool.full(); round++ {
 		k := cfg{chain: mp.ChainMixed, n: smudgeParties, lin: (round / 2) % 4, sigma: sigma, t: []uint64{97, 65537}[round%2]}
 		w = newBGVWorld(c, fmt.Sprintf("%s#%d", nm, round), k)
 		rp := w.rp
@@ -187,7 +210,7 @@ func smudgeBGV(c *engine.Chooser, nm string, sigma float64, _ bool) {
 			e2sP.GenShare(w.P.SK[i], w.ct, &sec, &pub)
 			if !s2e {
 				e := mp.LinearResidual(rp, pub.Value, w.ct.Value[1], true, negKey(rp, w.P.SK[i]))
-				pool = append(pool, addMod(e, w.liftMask(rp, sec.Value.Coeffs[0], k.lin), uni.QAtLevel(rp, k.lin))...)
+				pool.add(i, addMod(e, w.liftMask(rp, sec.Value.Coeffs[0], k.lin), uni.QAtLevel(rp, k.lin)))
 				continue
 			}
 			c0 := s2eP.AllocateShare(rp.MaxLevel())
@@ -200,7 +223,7 @@ func smudgeBGV(c *engine.Chooser, nm string, sigma float64, _ bool) {
 				neg[j].Neg(neg[j])
 			}
 			e := mp.LinearResidual(rp, c0.Value, crp.Value, true, w.P.SK[i])
-			pool = append(pool, addMod(e, neg, uni.QAtLevel(rp, rp.MaxLevel()))...)
+			pool.add(i, addMod(e, neg, uni.QAtLevel(rp, rp.MaxLevel())))
 		}
 	}
 	kind := "bgv-e2s"
@@ -212,11 +235,11 @@ func smudgeBGV(c *engine.Chooser, nm string, sigma float64, _ bool) {
 
 func smudgeCKKS(c *engine.Chooser, nm string, sigma float64, _ bool) {
 	s2e := nm[len("smudge/"):len("smudge/ckks-s2e")] == "ckks-s2e"
-	var pool []*big.Int
+	var pool pools
 	var w *ckksWorld
 	var e2sAll [smudgeParties]mpckks.EncToShareProtocol
 	var s2eAll [smudgeParties]mpckks.ShareToEncProtocol
-	for round := 0; len(pool) < smudgeCoeffs; round++ {
+	for round := 0; !pool.full(); round++ {
 		k := cfg{chain: mp.ChainCK40, n: smudgeParties, lin: round % 2, sigma: sigma, logSlots: []int{3, 1, 0}[round%3], logScale: 40, batched: true}
 		w = newCKKSWorld(c, fmt.Sprintf("%s#%d", nm, round), k)
 		if w == nil {
@@ -250,7 +273,7 @@ func smudgeCKKS(c *engine.Chooser, nm string, sigma float64, _ bool) {
 			}
 			if !s2e {
 				e := mp.LinearResidual(rp, pub.Value, w.ct.Value[1], true, negKey(rp, w.P.SK[i]))
-				pool = append(pool, addMod(e, w.lift(sec.Value, false), uni.QAtLevel(rp, w.lin))...)
+				pool.add(i, addMod(e, w.lift(sec.Value, false), uni.QAtLevel(rp, w.lin)))
 				continue
 			}
 			c0 := s2eP.AllocateShare(rp.MaxLevel())
@@ -259,7 +282,7 @@ func smudgeCKKS(c *engine.Chooser, nm string, sigma float64, _ bool) {
 				return
 			}
 			e := mp.LinearResidual(rp, c0.Value, crp.Value, true, w.P.SK[i])
-			pool = append(pool, addMod(e, w.lift(sec.Value, true), uni.QAtLevel(rp, rp.MaxLevel()))...)
+			pool.add(i, addMod(e, w.lift(sec.Value, true), uni.QAtLevel(rp, rp.MaxLevel())))
 		}
 	}
 	kind := "ckks-e2s"
